@@ -1308,26 +1308,60 @@ func (g *gen) stmtAttachment() bool {
 				}
 			})
 		}
-		cs = append(cs, func() {
-			// forEachAttachment: the visited set, order-independent (sum of y and count)
+		iterate := func(expr string, val *Val) {
+			// forEachAttachment: the visited set, order-independent (count, and a checksum over type, the
+			// attachment's own field and the CURRENT base's field read through the attachment)
 			c, sum := g.fresh("c"), g.fresh("s")
 			g.emit("var %s = 0", c)
 			g.emit("var %s = 0", sum)
-			g.emit("%s.forEachAttachment(fun (att: &AnyResourceAttachment) {", p.expr)
+			g.emit("%s.forEachAttachment(fun (att: &AnyResourceAttachment) {", expr)
 			g.emit("  %s = %s + 1", c, c)
 			for _, x := range ats {
-				g.emit("  if let t = att as? &%s%s { %s = %s + %d + t.y }", q, x.Name, sum, sum, 1000*(x.Idx+1))
+				g.emit("  if let t = att as? &%s%s { %s = %s + %d + t.y + 7 * t.baseN() }", q, x.Name, sum, sum, 1000*(x.Idx+1))
 			}
 			g.emit("})")
 			g.emit("log(%s)", c)
 			g.emit("log(%s)", sum)
 			tot := 0
-			for _, x := range p.val.Atts {
-				tot += 1000*(x.T+1) + x.Y
+			for _, x := range val.Atts {
+				tot += 1000*(x.T+1) + x.Y + 7*val.N
 			}
-			g.log(fmt.Sprint(len(p.val.Atts)))
+			g.log(fmt.Sprint(len(val.Atts)))
 			g.log(fmt.Sprint(tot))
-		})
+		}
+		cs = append(cs, func() { iterate(p.expr, p.val) })
+		if p.own && g.movable(p.root) && a != nil {
+			// access b[A] (binds whatever the implementation caches), move the base, then iterate:
+			// the callback must see the base where it is now
+			cs = append(cs, func() {
+				g.emit("log(%s?.y)", acc)
+				g.log(fmt.Sprint(a.Y))
+				if chance(g.s, 1, 2) {
+					n := g.s.Intn(100)
+					g.emit("%s.setN(%d)", p.expr, n)
+					p.val.N = n
+				}
+				p.root.Live = false
+				name := g.fresh("v")
+				var mv string
+				switch g.s.Intn(3) {
+				case 0:
+					mv = p.expr
+				case 1:
+					mv = fmt.Sprintf("%s(<- %s)", g.helper("pass_"+p.root.T.ID(), fmt.Sprintf("access(all) fun pass_%s(_ x: %s): %s { return <- x }", p.root.T.ID(), p.root.T.Ann(q), p.root.T.Ann(q))), p.expr)
+				default:
+					mv = fmt.Sprintf("[<- %s].removeFirst()", p.expr)
+				}
+				g.emit("let %s <- %s", name, mv)
+				g.st.vars = append(g.st.vars, &Var{Name: name, T: p.root.T, V: p.val, Live: true})
+				g.noteMove(p.val)
+				iterate(name, p.val)
+				if chance(g.s, 1, 2) {
+					g.emit("log(%s[%s%s]!.baseN())", name, q, at.Name)
+					g.log(fmt.Sprint(p.val.N))
+				}
+			})
+		}
 	}
 	if len(cs) == 0 {
 		return false
